@@ -582,3 +582,239 @@ Proof.
   change (conforms (log_of ops (fst (run_from ha s1 ops)) 0) (rem s1 (call_args ops (fst (run_from ha s1 ops))) 0) 0 = true).
   apply run_conforms; auto.
 Qed.
+
+(* ---------- what conformance means, pointwise ---------- *)
+Lemma item_eqb_eq a b : item_eqb a b = true -> a = b.
+Proof. destruct a, b; cbn; try discriminate; intro H; try reflexivity; f_equal; lia. Qed.
+
+Lemma conforms_nth : forall log ex np, conforms log ex np = true ->
+  forall i r n, nth_error log i = Some (r, n) ->
+  match nth_error ex i with
+  | Some p => p = (r, n)
+  | None => r = XEnd
+  end.
+Proof.
+  induction log as [|[r0 n0] log IH]; intros ex np H i r n Hi; [destruct i; discriminate|].
+  cbn [conforms] in H. destruct ex as [|[x m] ex'].
+  - apply andb_prop in H. destruct H as [H H2]. apply andb_prop in H. destruct H as [H1 H3].
+    destruct i; cbn in *.
+    + injection Hi as <- <-. apply item_eqb_eq in H1. exact H1.
+    + specialize (IH [] np H2 i r n Hi). destruct i; exact IH.
+  - apply andb_prop in H. destruct H as [H H2]. apply andb_prop in H. destruct H as [H1 H3].
+    destruct i; cbn in *.
+    + injection Hi as <- <-. apply item_eqb_eq in H1. apply Nat.eqb_eq in H3. subst. reflexivity.
+    + exact (IH ex' m H2 i r n Hi).
+Qed.
+
+(* as long as the specification's log lasts, the observed log is literally its prefix *)
+Lemma conforms_prefix : forall log ex np, conforms log ex np = true ->
+  forall i, (i <= length log)%nat -> (i <= length ex)%nat -> firstn i log = firstn i ex.
+Proof.
+  induction log as [|[r0 n0] log IH]; intros ex np H i Hl He.
+  - cbn in Hl. assert (i = O) by lia. subst. reflexivity.
+  - destruct i; [reflexivity|]. destruct ex as [|[x m] ex']; [cbn in He; lia|].
+    cbn [conforms] in H. apply andb_prop in H. destruct H as [H H2]. apply andb_prop in H. destruct H as [H1 H3].
+    apply item_eqb_eq in H1. apply Nat.eqb_eq in H3. subst. cbn [firstn]. f_equal.
+    apply (IH ex' m H2); cbn in *; lia.
+Qed.
+
+(* ---------- shape of the specification ---------- *)
+Arguments expected : simpl nomatch.
+Definition is_terminal (i : item) : bool := match i with XEnd => true | XExc _ => true | _ => false end.
+
+(* the expected log is: values and argument receptions, then exactly one terminal item (End or the exception) *)
+Lemma expected_shape : forall pc cur arg args np,
+  exists l t n, expected pc cur arg args np = l ++ [(t, n)] /\ is_terminal t = true /\
+                forallb (fun p => negb (is_terminal (fst p))) l = true.
+Proof.
+  induction pc as [|i t IH]; intros cur arg args np; cbn [expected].
+  - exists [], XEnd, np. auto.
+  - destruct i; cbn [expected];
+    try (destruct (IH cur arg args np) as (l & t0 & n & E & T & F); exists l, t0, n; auto; fail).
+    + destruct (IH (hd 0 args) (hd 0 args) (tl args) np) as (l & t0 & n & E & T & F).
+      exists ((XVal v, np) :: (XArg (hd 0 args), np) :: l), t0, n. rewrite E. auto.
+    + destruct (IH cur arg args (S np)) as (l & t0 & n & E & T & F). exists l, t0, n. auto.
+    + exists [], (XExc e), np. auto.
+    + exists [], XEnd, np. auto.
+    + destruct (IH arg arg args np) as (l & t0 & n & E & T & F).
+      exists ((XArg arg, np) :: l), t0, n. rewrite E. auto.
+    + destruct (IH (hd 0 args) (hd 0 args) (tl args) np) as (l & t0 & n & E & T & F).
+      exists ((XVal cur, np) :: (XArg (hd 0 args), np) :: l), t0, n. rewrite E. auto.
+Qed.
+
+Fixpoint count_val (l : list (item * nat)) : nat :=
+  match l with
+  | [] => O
+  | (XVal _, _) :: t => S (count_val t)
+  | _ :: t => count_val t
+  end.
+
+Lemma nth_hd_tl (k : nat) (l : list Z) : nth k (hd 0 l :: tl l) 0 = nth k l 0.
+Proof. destruct l; [destruct k as [|[|k]]; reflexivity|reflexivity]. Qed.
+
+(* every argument the body receives is the argument of the call that resumed it: the number of values
+   delivered before that point identifies the call (call 0 started the body) *)
+Lemma expected_args : forall pc cur arg rest np pre a n post,
+  expected pc cur arg rest np = pre ++ (XArg a, n) :: post ->
+  a = nth (count_val pre) (arg :: rest) 0.
+Proof.
+  induction pc as [|i t IH]; intros cur arg rest np pre a n post H; cbn [expected] in H.
+  - destruct pre as [|p [|q pre]]; cbn in H; discriminate.
+  - destruct i; cbn [expected] in H; try (eapply IH; exact H; fail).
+    + destruct pre as [|p pre]; [discriminate|]. injection H as <- H.
+      destruct pre as [|q pre]; cbn in H.
+      * injection H as <- _ _. cbn. destruct rest; reflexivity.
+      * injection H as <- H. cbn [count_val]. apply IH in H. rewrite H. cbn [nth]. apply nth_hd_tl.
+    + destruct pre as [|p [|q pre]]; cbn in H; discriminate.
+    + destruct pre as [|p [|q pre]]; cbn in H; discriminate.
+    + destruct pre as [|p pre]; cbn in H.
+      * injection H as <- _ _. reflexivity.
+      * injection H as <- H. cbn [count_val]. eapply IH. exact H.
+    + destruct pre as [|p pre]; [discriminate|]. injection H as <- H.
+      destruct pre as [|q pre]; cbn in H.
+      * injection H as <- _ _. cbn. destruct rest; reflexivity.
+      * injection H as <- H. cbn [count_val]. apply IH in H. rewrite H. cbn [nth]. apply nth_hd_tl.
+Qed.
+
+Arguments expected : simpl never.
+
+Lemma spec_args sc args pre a n post :
+  spec sc args = pre ++ (XArg a, n) :: post -> a = nth (count_val pre) args 0.
+Proof.
+  unfold spec. intro H. apply expected_args in H. rewrite H. apply nth_hd_tl.
+Qed.
+
+(* ---------- run-level RAII balance and frame accounting ---------- *)
+Lemma all_events_cons o os : all_events (o :: os) = o_ev o ++ all_events os.
+Proof. reflexivity. Qed.
+
+Lemma run_balance : forall ha ops s z, Good s ->
+  (count_ev (is_ctor z) (all_events (fst (run_from ha s ops))) + count_z z (gds s)
+   = count_ev (is_dtor z) (all_events (fst (run_from ha s ops))) + count_z z (gds (snd (run_from ha s ops))))%nat.
+Proof.
+  induction ops as [|x ops IH]; intros s z HG; [cbn; lia|].
+  rewrite run_cons. cbn [fst snd]. rewrite all_events_cons, !count_ev_app.
+  pose proof (step_facts ha s x HG) as HS. destruct (step ha s x) as [s1 o]. cbn [fst snd].
+  destruct HS as (HG1 & HB & _). specialize (HB z). specialize (IH s1 z HG1). lia.
+Qed.
+
+Lemma run_frames : forall ha ops s, Good s ->
+  sumz (map o_news (fst (run_from ha s ops))) - sumz (map o_dels (fst (run_from ha s ops)))
+  = b2z (live (snd (run_from ha s ops))) - b2z (live s).
+Proof.
+  induction ops as [|x ops IH]; intros s HG; [cbn; lia|].
+  rewrite run_cons. cbn [fst snd map sumz].
+  pose proof (step_facts ha s x HG) as HS. destruct (step ha s x) as [s1 o]. cbn [fst snd].
+  destruct HS as (HG1 & _ & _ & _ & _ & (HF & _) & _). specialize (IH s1 HG1). lia.
+Qed.
+
+(* C13 destroy_parked *)
+Theorem gen_destroy_balance : forall ha ops z,
+  let r := run_from ha sys0 ops in
+  let evs := all_events (fst r) in
+  (count_ev (is_ctor z) evs = count_ev (is_dtor z) evs + count_z z (gds (snd r)))%nat /\
+  (live (snd r) = false -> count_ev (is_ctor z) evs = count_ev (is_dtor z) evs) /\
+  (live (snd r) = true -> bst (snd r) = BFinal -> count_ev (is_ctor z) evs = count_ev (is_dtor z) evs) /\
+  sumz (map o_news (fst r)) - sumz (map o_dels (fst r)) = b2z (live (snd r)).
+Proof.
+  intros ha ops z r evs. subst r evs.
+  pose proof (run_balance ha ops sys0 z good0) as HB. cbn [gds sys0 count_z] in HB.
+  pose proof (run_good ha ops sys0 good0) as HG.
+  pose proof (run_frames ha ops sys0 good0) as HF. cbn [live sys0 b2z] in HF.
+  destruct HG as (_ & HG1 & HG2).
+  split; [lia|]. split; [intro Hl; rewrite (HG2 Hl) in HB; cbn in HB; lia|].
+  split; [|lia].
+  intros Hl Hb. destruct (HG1 Hl) as [HI _]. unfold Inv in HI. rewrite Hb in HI.
+  destruct HI as (_ & _ & _ & Hg & _). rewrite Hg in HB. cbn in HB. lia.
+Qed.
+
+(* what a Destroy op does in a reachable state: runs the destructor of every live local once, youngest first,
+   frees the frame; afterwards nothing is accepted any more *)
+Theorem gen_destroy_step : forall ha ops,
+  let s := snd (run_from ha sys0 ops) in
+  live s = true -> out s = None ->
+  let '(s1, o) := step ha s ODestroy in
+  o_ev o = map EDtor (gds s) /\ o_dels o = 1 /\ o_news o = 0 /\ live s1 = false /\ gds s1 = [] /\
+  (bst s = BInit -> o_ev o = []) /\
+  forall x, snd (step ha s1 x) = rejected.
+Proof.
+  intros ha ops s Hl Ho. cbn [step]. rewrite Hl, Ho. cbn [andb].
+  pose proof (run_good ha ops sys0 good0) as HG. fold s in HG. destruct HG as (_ & HG1 & _).
+  destruct (HG1 Hl) as [HI Hc].
+  repeat split; auto.
+  - intro Hb. unfold Inv in HI. rewrite Hb in HI. destruct HI as (_ & _ & _ & _ & _ & Hg). cbn. rewrite Hg. reflexivity.
+  - intro x. destruct x; cbn; auto. destruct (out s); auto. destruct (bst s); auto.
+Qed.
+
+(* C13 sync_waits_async, state form *)
+Theorem gen_pending_iff_suspended : forall ha ops x,
+  let s := snd (run_from ha sys0 ops) in
+  let '(s1, o) := step ha s x in
+  (ok o = true -> (is_access x || is_complete x) = true -> (o_res o = RPend <-> exists k, bst s1 = BPend k)) /\
+  (live s1 = true -> ((exists k, bst s1 = BPend k) <-> out s1 <> None)) /\
+  err s1 = false.
+Proof.
+  intros ha ops x s.
+  pose proof (run_good ha ops sys0 good0) as HG. fold s in HG.
+  pose proof (step_facts ha s x HG) as HS. destruct (step ha s x) as [s1 o].
+  destruct HS as ((He & HG1 & _) & _ & _ & _ & HP & _).
+  split; [exact HP|]. split; [|exact He].
+  intro Hl. destruct (HG1 Hl) as [HI _]. apply inv_out_pend. exact HI.
+Qed.
+
+(* ---------- exception position ---------- *)
+Lemma forallb_nth {A} (P : A -> bool) l i x : forallb P l = true -> nth_error l i = Some x -> P x = true.
+Proof. intros H Hn. rewrite forallb_forall in H. apply H. eapply nth_error_In. exact Hn. Qed.
+
+Theorem gen_exception_position : forall ha sc ops i e n,
+  let os := fst (run_from ha sys0 (OCreate sc :: ops)) in
+  let log := log_of (OCreate sc :: ops) os 0 in
+  let sp := spec sc (call_args (OCreate sc :: ops) os) in
+  nth_error log i = Some (XExc e, n) ->
+  firstn (S i) log = firstn (S i) sp /\ S i = length sp /\
+  forall j r m, (i < j)%nat -> nth_error log j = Some (r, m) -> r = XEnd.
+Proof.
+  intros ha sc ops i e n os log sp Hi.
+  pose proof (gen_conforms ha sc ops) as HC. fold os log sp in HC. cbv zeta in HC.
+  pose proof (conforms_nth log sp 0%nat HC i (XExc e) n Hi) as Hn.
+  destruct (nth_error sp i) as [p|] eqn:Esp; [subst p|discriminate].
+  assert (Hlen : S i = length sp).
+  { unfold sp, spec in *. destruct (expected_shape sc 0 (hd 0 (call_args (OCreate sc :: ops) os)) (tl (call_args (OCreate sc :: ops) os)) 0)
+      as (l & t & n' & E & T & F). rewrite E in *. rewrite app_length. cbn [length].
+    destruct (Nat.lt_ge_cases i (length l)) as [Hlt|Hge].
+    - rewrite nth_error_app1 in Esp by exact Hlt. pose proof (forallb_nth _ _ _ _ F Esp) as HH. cbn in HH. discriminate.
+    - assert (i < length (l ++ [(t, n')]))%nat by (apply nth_error_Some; congruence).
+      rewrite app_length in H. cbn in H. lia. }
+  split.
+  { apply (conforms_prefix log sp 0%nat HC); [|lia].
+    assert (i < length log)%nat by (apply nth_error_Some; congruence). lia. }
+  split; [exact Hlen|].
+  intros j r m Hj Hnj. pose proof (conforms_nth log sp 0%nat HC j r m Hnj) as H.
+  assert (nth_error sp j = None) by (apply nth_error_None; lia). rewrite H0 in H. exact H.
+Qed.
+
+(* ---------- argument delivery ---------- *)
+Lemma nth_error_split' {A} (l : list A) i x : nth_error l i = Some x -> l = firstn i l ++ x :: skipn (S i) l.
+Proof.
+  revert i. induction l as [|y l IH]; intros [|i] H; cbn in *; try discriminate.
+  - injection H as ->. reflexivity.
+  - f_equal. apply IH. exact H.
+Qed.
+
+Theorem gen_argument_delivery : forall ha sc ops i a n,
+  let os := fst (run_from ha sys0 (OCreate sc :: ops)) in
+  let log := log_of (OCreate sc :: ops) os 0 in
+  nth_error log i = Some (XArg a, n) ->
+  a = nth (count_val (firstn i log)) (call_args (OCreate sc :: ops) os) 0.
+Proof.
+  intros ha sc ops i a n os log Hi.
+  pose proof (gen_conforms ha sc ops) as HC. fold os log in HC. cbv zeta in HC.
+  set (sp := spec sc (call_args (OCreate sc :: ops) os)) in *.
+  pose proof (conforms_nth log sp 0%nat HC i (XArg a) n Hi) as Hn.
+  destruct (nth_error sp i) as [p|] eqn:Esp; [subst p|discriminate].
+  assert (Hil : (i < length log)%nat) by (apply nth_error_Some; congruence).
+  assert (His : (i < length sp)%nat) by (apply nth_error_Some; congruence).
+  rewrite (conforms_prefix log sp 0%nat HC i) by lia.
+  apply nth_error_split' in Esp. unfold sp in Esp at 1. apply spec_args in Esp. exact Esp.
+Qed.
+
